@@ -8,6 +8,7 @@ func init() {
 	verifHarnesses["h14"] = h14
 	verifHarnesses["h14t"] = h14t
 	verifHarnesses["h14r"] = h14r
+	verifHarnesses["h14s"] = h14s
 	verifHarnesses["h14_witness"] = h14_witness
 }
 
@@ -128,6 +129,13 @@ func zzClone(m *zzV, maxBin int) *zzV {
 			}
 			n.ids = append(n.ids, id)
 			n.kids = append(n.kids, zzClone(c, maxBin))
+		}
+		// struct fields are unordered: the clone may list them in reverse
+		if len(n.kids) > 1 && verifChoice(2) == 1 {
+			for i, j := 0, len(n.kids)-1; i < j; i, j = i+1, j-1 {
+				n.kids[i], n.kids[j] = n.kids[j], n.kids[i]
+				n.ids[i], n.ids[j] = n.ids[j], n.ids[i]
+			}
 		}
 	case TList, TSet:
 		for _, c := range m.kids {
@@ -332,4 +340,43 @@ func h14t() {
 func h14_witness() {
 	h14()
 	verifAssert(false, "reachable")
+}
+
+// h14s: unhashable set elements and map keys — a struct of two scalar
+// fields inside a set, a list-of-set, or as a map key; the second value has
+// the same shape with independent leaves and possibly the struct's fields
+// listed in the other order.
+func h14s() {
+	mkStruct := func() *zzV {
+		n := &zzV{t: TStruct}
+		for i := 0; i < 2; i++ {
+			id := verifI16()
+			for _, o := range n.ids {
+				verifAssume(o != id)
+			}
+			n.ids = append(n.ids, id)
+			f := &zzV{t: []Type{TI32, TBinary}[verifChoice(2)]}
+			zzLeaf(f, 1, -1)
+			n.kids = append(n.kids, f)
+		}
+		return n
+	}
+	var x *zzV
+	switch verifChoice(3) {
+	case 0:
+		x = &zzV{t: TSet, kt: TStruct, kids: []*zzV{mkStruct()}}
+	case 1:
+		x = &zzV{t: TMap, kt: TStruct, vt: TI8, kids: []*zzV{mkStruct()}, vals: []*zzV{{t: TI8, num: uint64(uint8(verifI8()))}}}
+	default:
+		inner := &zzV{t: TSet, kt: TStruct, kids: []*zzV{mkStruct()}}
+		x = &zzV{t: TList, kt: TSet, kids: []*zzV{inner}}
+	}
+	y := zzClone(x, 1)
+	want := zzEq(x, y)
+	xy := ValuesAreEqual(x.wire(), y.wire())
+	yx := ValuesAreEqual(y.wire(), x.wire())
+	verifAssert(xy == yx, "symmetric")
+	verifAssert(uint64(verifB2I(xy)) == want, "matches-structural-oracle")
+	verifAssert(ValuesAreEqual(x.wire(), x.wire()), "reflexive")
+	verifReached("end")
 }
